@@ -18,7 +18,7 @@ from ..rules import ncallee, norm, Derive
 META = {
     "level": "other",
     "technique": "lock-order/re-acquisition analysis on MIR guard lifetimes (through resolved calls) + null-check dominance (edge-sensitive) + bounded-copy derivation + sibling agreement (close vs child tables, header vs exports)",
-    "claim": "Decides deadlock-freedom of the four global mutexes for every path and call chain (depth 4), exact-once purge of all child handle tables on close, null-guard dominance of every raw-pointer parameter dereference, size-bounding of every copy into caller memory, fail-closed table lookups, and header/export arity agreement. Does not compare C-API results with Rust-API results (value-level). Also: the copied length is the very value compared with the caller's size; counter statics are locked once per function (atomic allocation). Wave 5: (low, high) seek distances compose correctly under both calling conventions (9 distances x 2); raw copies of table memory run while the table's guard is live. Wave 6: all handle tables draw ids from one counter; no str range index at a computed byte budget. Wave 7: the entry reported by FindFirst / FindNext is file_list[current_index].",
+    "claim": "Decides deadlock-freedom of the four global mutexes for every path and call chain (depth 4), exact-once purge of all child handle tables on close, null-guard dominance of every raw-pointer parameter dereference, size-bounding of every copy into caller memory, fail-closed table lookups, and header/export arity agreement. Does not compare C-API results with Rust-API results (value-level). Also: the copied length is the very value compared with the caller's size; counter statics are locked once per function (atomic allocation). Wave 5: (low, high) seek distances compose correctly under both calling conventions (9 distances x 2); raw copies of table memory run while the table's guard is live. Wave 6: all handle tables draw ids from one counter; no str range index at a computed byte budget. Wave 7: the entry reported by FindFirst / FindNext is file_list[current_index]. Wave 8: every store to a file handle's cursor is clamped on each value it can take; only issued handle values decode (codec evaluated over 4096 values).",
     "note": "Trusted: rustc MIR drop elaboration for guard lifetimes; std Mutex non-reentrancy; the C caller honours documented buffer sizes. Raw pointer validity beyond non-null is the caller's contract.",
     "assumptions": ["callers pass either null or valid pointers of the documented size", "only the four `static … LazyLock<Mutex<…>>` tables are shared between threads"],
     "explanation": "Every function of the storm-ffi crate: 33 lock sites, every extern \"C\" function's raw-pointer parameters, every copy_nonoverlapping, every table get/remove, the close function and the generated header.",
